@@ -232,10 +232,10 @@ package sipsp
 //@   law[C02] RES(buf, offs) ignoring pfrom.soffs
 //@   requires bufOK(buf) && 0 <= offs && offs <= len(buf) && pfrom != nil && fbOK(pfrom, offs, pfrom.soffs)
 //@   modifies *pfrom
-//@   split fbNest(pfrom, offs, pfrom.soffs)
+//@   split fbNest(buf, pfrom, offs, pfrom.soffs)
 //@   loop 0 "for i < len(buf)"
 //@     invariant offs <= i && i <= len(buf) && fbOK(pfrom, i, s)
-//@     invariant[C09] fbNest(&pfrom_old, offs0, pfrom_old.soffs) ==> fbNest(pfrom, i, s)
+//@     invariant[C09] fbNest(buf, &pfrom_old, offs0, pfrom_old.soffs) ==> fbNest(buf, pfrom, i, s)
 //@     invariant pfrom.state != fbInit ==> (pfrom_old.state != fbInit && pfrom.V.Offs == pfrom_old.V.Offs) || (pfrom_old.state == fbInit && int(pfrom.V.Offs) >= offs)
 //@     invariant pfrom.state != fbFIN && pfrom_old.state != fbFIN && (pfrom.state == fbInit ==> pfrom_old.state == fbInit)
 //@     decreases len(buf) - i
@@ -249,8 +249,8 @@ package sipsp
 //@   ensures pfrom.state != fbInit && pfrom_old.state != fbFIN ==> (pfrom_old.state != fbInit && pfrom.V.Offs == pfrom_old.V.Offs) || (pfrom_old.state == fbInit && int(pfrom.V.Offs) >= offs)
 //@   ensures err == ErrHdrMoreBytes ==> pfrom.state != fbFIN
 //@   ensures err == ErrHdrOk && pfrom_old.state != fbFIN ==> n > offs
-//@   ensures[C09,leaf] "nested": fbNest(&pfrom_old, offs, pfrom_old.soffs) && pfrom_old.state != fbFIN && pfrom.state == fbFIN && (err == ErrHdrOk || err == ErrHdrMoreValues) ==> fbNested(pfrom)
-//@   ensures[C09,leaf] "suspended-nest": fbNest(&pfrom_old, offs, pfrom_old.soffs) && err == ErrHdrMoreBytes ==> fbNest(pfrom, n, pfrom.soffs)
+//@   ensures[C09,leaf] "nested": fbNest(buf, &pfrom_old, offs, pfrom_old.soffs) && pfrom_old.state != fbFIN && pfrom.state == fbFIN && (err == ErrHdrOk || err == ErrHdrMoreValues) ==> fbNested(buf, pfrom)
+//@   ensures[C09,leaf] "suspended-nest": fbNest(buf, &pfrom_old, offs, pfrom_old.soffs) && err == ErrHdrMoreBytes ==> fbNest(buf, pfrom, n, pfrom.soffs)
 
 //@ func ParseAllPAIValues(buf, offs, c) (n, err)
 //@   requires bufOK(buf) && 0 <= offs && offs <= len(buf) && c != nil && paiOK(c, offs)
